@@ -1,4 +1,79 @@
-/- Line protocol of C09: placeholder until the model of this property is built. -/
+import BertE.Gen.Cascade
+import BertE.Model.Cascade
+import BertE.Model.CascadeSpec
+/- Line protocol of the branch cascade:
+     `<branch,branch,...> <tag,tag,...|-> <destination>`   branch names in discovery order, raw tag strings
+   answer  `ok dst=<names>;ign=<names>;tv=<versions>;mp=<a>b>c|...>` | `err <Class>` | `crash <Class>`;
+     `spec <branches> <tags> <destination>`   the same question to the declarative specification;
+     `parse <tag>`   answer `<major>.<minor>.<micro>.<hfrev or default>` | `none`  (the tag parser alone). -/
 namespace BertE.Drv.C09
-def handle (_args : List String) : String := "bad-op"
+open BertE.Cascade
+
+/-- the constants regenerated from the source -/
+def genCfg : Cfg :=
+  { microInit := BertE.Gen.Cascade.microInit, hfrevInit := BertE.Gen.Cascade.hfrevInit,
+    latestMinorInit := BertE.Gen.Cascade.latestMinorInit, hasStabInit := BertE.Gen.Cascade.hasStabInit,
+    tagHfrevDefault := BertE.Gen.Cascade.tagHfrevDefault,
+    offStab := BertE.Gen.Cascade.offStab, offNoStab := BertE.Gen.Cascade.offNoStab,
+    offMajorMinor := BertE.Gen.Cascade.offMajorMinor, offMajorMicro := BertE.Gen.Cascade.offMajorMicro,
+    devCanBeDst := BertE.Gen.Cascade.devCanBeDst, stabCanBeDst := BertE.Gen.Cascade.stabCanBeDst,
+    hotfixCanBeDst := BertE.Gen.Cascade.hotfixCanBeDst }
+
+/-- glue: the three name shapes of the protocol (classification of arbitrary names is C18) -/
+def parseBranch (s : String) : Option Branch :=
+  match s.splitOn "/" with
+  | [pre, ver] =>
+    match pre, (splitDots ver.toList).mapM natOfDigits? with
+    | "development", some [M] => some (.dev M none)
+    | "development", some [M, m] => some (.dev M (some m))
+    | "stabilization", some [M, m, u] => some (.stab M m u)
+    | "hotfix", some [M, m, u] => some (.hotfix M m u)
+    | _, _ => none
+  | _ => none
+
+def showVer (v : Ver) : String := ".".intercalate (v.map toString)
+
+def showErr : Err → String
+  | .unsupportedMultipleStabBranches => "err UnsupportedMultipleStabBranches"
+  | .deprecatedStabilizationBranch => "err DeprecatedStabilizationBranch"
+  | .devBranchDoesNotExist => "err DevBranchDoesNotExist"
+  | .notASingleDevBranch => "err NotASingleDevBranch"
+  | .versionMismatch => "err VersionMismatch"
+  | .devBranchesNotSelfContained => "err DevBranchesNotSelfContained"
+  | .attributeError => "crash AttributeError"
+  | .keyError => "crash KeyError"
+
+def showResult (r : Result) : String :=
+  "ok dst=" ++ ",".intercalate (r.dst.map Branch.name) ++
+  ";ign=" ++ ",".intercalate r.ignored ++
+  ";tv=" ++ ",".intercalate (r.targets.map showVer) ++
+  ";mp=" ++ "|".intercalate (r.mergePaths.map fun p => ">".intercalate (p.map Branch.name))
+
+def handle (args : List String) : String :=
+  match args with
+  | ["parse", t] =>
+    match parseTag t with
+    | some tg => showVer [tg.major, tg.minor, tg.micro,
+        match tg.hfrev with
+        | some h => (h : Int)
+        | none => genCfg.tagHfrevDefault]
+    | none => "none"
+  | ["spec", bl, tl, d] =>
+    let tags := if tl == "-" then [] else tl.splitOn ","
+    match (bl.splitOn ",").mapM parseBranch, parseBranch d with
+    | some bs, some dst =>
+      match Spec.result bs (tags.filterMap parseTag) dst with
+      | .ok r => showResult r
+      | .error e => showErr e
+    | _, _ => "bad-op"
+  | [bl, tl, d] =>
+    let tags := if tl == "-" then [] else tl.splitOn ","
+    match (bl.splitOn ",").mapM parseBranch, parseBranch d with
+    | some bs, some dst =>
+      match build genCfg (fun _ _ => true) bs (tags.filterMap parseTag) dst with
+      | .ok r => showResult r
+      | .error e => showErr e
+    | _, _ => "bad-op"
+  | _ => "bad-op"
+
 end BertE.Drv.C09
